@@ -36,12 +36,12 @@ func (r *Reader) readPreview(b *box) (err error) {
 func (r *Reader) createPRVWBox(b *box) (inner box, err error) {
 	_, err = b.Discard(8)
 	if err != nil {
-		return inner, errors.Wrap(ErrBufLength, "readPRVWBoxDiscard")
+		return inner, errPRVWBoxDiscard
 	}
 
 	buf, err := b.Peek(8)
 	if err != nil {
-		return inner, errors.Wrap(ErrBufLength, "readPRVWBoxPeek")
+		return inner, errPRVWBoxPeek
 	}
 
 	inner.reader = b.reader
@@ -61,7 +61,7 @@ func parsePreviewBox(b *box) (prvw PRVWBox, err error) {
 
 	buf, err := b.Peek(24)
 	if err != nil {
-		return prvw, errors.Wrap(ErrBufLength, "parsePreviewBoxPeek")
+		return prvw, errPreviewBoxPeek
 	}
 
 	prvw.Width = bmffEndian.Uint16(buf[14:16])
@@ -70,7 +70,7 @@ func parsePreviewBox(b *box) (prvw PRVWBox, err error) {
 
 	_, err = b.Discard(24)
 	if err != nil {
-		return prvw, errors.Wrap(ErrBufLength, "parsePreviewBoxDiscard")
+		return prvw, errPreviewBoxDiscard
 	}
 
 	return prvw, nil
